@@ -70,7 +70,38 @@ def parking_gap(case, detail, m):
     return bool(bad) and all(b["parking_time"] > 0 and 0 < b["gap"] <= b["parking_time"] * b["parking_stops"] for b in bad)
 
 
-PREDICATES = {"c03w_unrepresentable_schedule": unrepresentable_schedule, "c03w_parking_gap": parking_gap}
+def break_inside_stop(case, detail, m):
+    """known-finding predicate (S59): required-break stream, only the break clauses fail (timing split / cost), and every failing tour
+    has a reserved time that prolongs a ZERO-LENGTH leg between two activities at one location (next arrival - previous departure =
+    break duration, the break falls due exactly at the previous departure): the core books the prolongation as travel, the writer
+    writes the break into the stop, keeps the time as driving and charges it again as break"""
+    impl = case.get("impl") or {}
+    if case.get("k") != "wbreak" or not isinstance(impl, dict) or "panic" in impl or not isinstance(detail, str):
+        return False
+    if "tours_with_required_breaks_meet_the_break_clauses" not in detail:
+        return False
+    try:
+        import ast
+        bad = ast.literal_eval(detail[detail.index("[{"):])
+    except Exception:
+        return False
+    allowed = {"driving+serving+waiting+break does not add up to duration", "cost is not fixed + distance*cd + duration*ct"}
+    routes = {r.get("vehicleId"): r for r in impl.get("routes", [])}
+    def shape(r):
+        acts = r.get("acts", [])
+        for rt in r.get("reserved", []):
+            if rt.get("offset"):
+                continue
+            for a, b in zip(acts, acts[1:]):
+                if (a["loc"] == b["loc"] and isinstance(a["dep"], int) and isinstance(b["arr"], int) and rt["dur"] > 0
+                        and b["arr"] - a["dep"] == rt["dur"] and a["dep"] == rt["stop"] and b["legDist"] == 0):
+                    return True
+        return False
+    return bool(bad) and all(set(b["rules"]) <= allowed and b["vehicleId"] in routes and shape(routes[b["vehicleId"]]) for b in bad)
+
+
+PREDICATES = {"c03w_unrepresentable_schedule": unrepresentable_schedule, "c03w_parking_gap": parking_gap,
+              "c03w_break_inside_stop": break_inside_stop}
 
 
 def w_nontrivial(case, verdict):
